@@ -479,6 +479,8 @@ def config_for(i, tier='quick'):
     only = os.environ.get('VERIF_C16_ONLY')      # developer aid: every run in one mode
     if only == 'keyrace':
         return {'mode': 'keyrace', 'memo': True, 'clock_jumps': False}
+    if only == 'dbfresh':
+        return {'mode': 'insitu', 'memo': True, 'clock_jumps': False, 'fault': 'none', 'focus': 7}
     if only == 'excpoint':
         return {'mode': 'excpoint', 'memo': True, 'clock_jumps': False,
                 'crashpoints': 'all' if tier == 'thorough' else 'sample'}
